@@ -394,7 +394,8 @@ class Gen:
         self.scopes.append(dict(vars=[], regs=[], objs=[], bits=[], aliases=[]))
         body = []
         # loop-scoped tracked qubit (k exits per shot) in the tracked profile
-        if self.p in ("tracked",) and self.r.random() < 0.7:
+        if self.p in ("tracked",) and self.r.random() < 0.7 and self.nq + n <= 11:
+            self.nq += n   # one fresh qubit per iteration (locals are never released)
             name = self.fresh("lt")
             self.scopes[-1]["vars"].append(name)
             body.append(dict(k="decl", name=name, n=None, tracked=True, in_loop=True))
